@@ -131,6 +131,15 @@ func regression(class string, seed int64) []scenario {
 			sc.Writes = []write{{N: 10, Flush: true}}
 			add(sc)
 		}
+	case "close-undrained-serial", "close-undrained-tcp":
+		{
+			sc := base(class[len("close-undrained-"):], true, 4096)
+			sc.A = []item{arq(10)}
+			sc.Writes = []write{{N: 10}}
+			sc.End = "close"
+			sc.Undrained = true
+			add(sc)
+		}
 	case "remote-disconnect":
 		for _, mode := range []string{"serial", "tcp"} {
 			sc := base(mode, true, 16)
